@@ -33,6 +33,21 @@ ScaleInputOk(b, e) ==
        (Abs(vb) > 100000 \/ Abs(ve) > 100000 \/ n > 2000 \/ d > 2000)
        \/ Abs(d * ve * Pow10(2 - e.q) - n * vb * Pow10(2 - b.q)) <= (n + d) * 2
 
+\* a run scaled BEFORE normalisation ("pre"): the normalisation appends the shared auxiliaries in an order of its own,
+\* so the two lists are compared per tag tuple (kind, id, service, carrier, source) and step, on the sums
+TagOf(x) == <<x.kind, x.id, x.srv, x.cr, x.src>>
+ScaleInputOkBag(b, e) ==
+  LET n == e.run.scale[1]  d == e.run.scale[2]
+      tags(C) == {TagOf(C[i]) : i \in 1..Len(C)}
+      sumOf(C, g, t) == ISumSet(LAMBDA i : C[i].v[t], {i \in 1..Len(C) : TagOf(C[i]) = g})
+      cnt(C, g) == Cardinality({i \in 1..Len(C) : TagOf(C[i]) = g})
+  IN /\ Len(e.comps) = Len(b.comps) /\ e.N = b.N /\ tags(e.comps) = tags(b.comps)
+     /\ \A g \in tags(b.comps) : \A t \in 1..e.N :
+          LET vb == sumOf(b.comps, g, t)  ve == sumOf(e.comps, g, t) IN
+          (Abs(vb) > 100000 \/ Abs(ve) > 100000 \/ n > 2000 \/ d > 2000)
+          \/ Abs(d * ve * Pow10(2 - e.q) - n * vb * Pow10(2 - b.q)) <= (n + d) * 2 * (cnt(b.comps, g) + 1)
+IsPre(e) == "pre" \in DOMAIN e.run /\ e.run.pre
+
 V0(e, p) == IF HasP(e, p) THEN V(e, p) ELSE 0
 
 AcsSame(b, e) ==
@@ -50,7 +65,7 @@ Judge(e) ==
     IN IF IsScale(e) THEN
          \* a path present on one side only (the by-carrier maps omit exact zeros) counts as 0 on the other
          LET energy == ((DOMAIN b.out.flat \cup DOMAIN e.out.flat) \ (Ratios \cup FPaths(b) \cup {"k_exp", "arearef"})) IN
-         ok(ScaleInputOk(b, e), "harness:transform")
+         ok(IF IsPre(e) THEN ScaleInputOkBag(b, e) ELSE ScaleInputOk(b, e), "harness:transform")
          \cup {"not_linear:" \o p : p \in {p \in energy : ~EqN(e, V0(e, p), V0(b, p), 2)}}
          \cup {"ratio_changes_with_scale:" \o p : p \in {p \in Ratios : ~RatioEq(e, V(e, p), V(b, p))}}
          \cup {"f_match_changes_with_scale:" \o p : p \in {p \in FPaths(b) : HasP(e, p) /\ Abs(V(e, p) - V(b, p)) > 60}}
